@@ -18,6 +18,10 @@ Inductive case :=
             (flags : list (bool * bool)) (recov : list rres)
       (* Reset on a slow store: the writes in the order they reached the store; who: issued directly by Reset's
          goroutine?; flags per prefix: (reset marker on disk?, database equal to the pre-reset one?) *)
+| CCache (ntx : list N) (snaps : list (list op * list awrite))
+      (* stepping the shared write cache: per instant (before every single write to the cache during a block
+         addition, and at its end) the model operations completed by then and the content of the cache - what a
+         flush starting at that instant would write *)
 | CJump (jor : bool) (p top mtb : N) (obs : list obatch) (recov : list rres)
 | CStorageSync (race : bool) (obs : list (bool * bool * bool)) (recov : list rres)
       (* contract-storage-based synchronisation: per batch (carries a checkpoint?, contract storage items?, trie
@@ -231,6 +235,24 @@ Fixpoint all2 {A B} (f : A -> B -> bool) (a : list A) (b : list B) : bool :=
   | _, _ => false
   end.
 
+(* ---- the shared write cache between two writes ---- *)
+Definition a_blk (i : N) (w : awrite) : bool := match w with (KExec j, Some ABlk) => i =? j | _ => false end.
+Definition a_root (i : N) (w : awrite) : bool := match w with (KRoot j, Some _) => i =? j | _ => false end.
+Definition a_state (w : awrite) : bool := match w with (KState _, Some _) | (KMpt _, Some _) => true | _ => false end.
+Definition a_indices (o : list awrite) : list N :=
+  flat_map (fun w : awrite => match fst w with KExec j | KRoot j => [j] | _ => [] end) o.
+(* block record i <=> state root i; the tip pointer only with its block; storage / trie nodes only with a block *)
+Definition aligned_a (o : list awrite) : bool :=
+  forallb (fun i => Bool.eqb (existsb (a_blk i) o) (existsb (a_root i) o)) (a_indices o) &&
+  forallb (fun w : awrite => match w with (KCurBlock, Some (ANum j)) => existsb (a_blk j) o | _ => true end) o &&
+  (negb (existsb a_state o) || negb (forallb (fun i => negb (existsb (a_blk i) o)) (a_indices o))).
+Definition check_cache (ntx : list N) (snaps : list (list op * list awrite)) : N :=
+  let m := forallb (fun so : list op * list awrite =>
+              let '(n, _) := run Sx Rx xexec xroot (xntx ntx) xPS false xgcp xmtb xgcset
+                                 (fresh Sx Rx xroot 0 (xntx ntx)) (fst so) in
+              same (norm (cache n)) (snd so)) snaps in
+  code_of m (forallb (fun so : list op * list awrite => aligned_a (snd so)) snaps).
+
 (* ---- reset on a slow store: the order of the two writers ---- *)
 (* start-up needs the contract storage of the current prefix (native caches are read from it) *)
 Definition boot_s (fx : fixes) (ntx : list N) (x : xdb) : rres :=
@@ -346,6 +368,7 @@ Definition check_case (c : case) : N :=
   | CPersist gc ntx ops obs recov => check_persist gc ntx ops obs recov
   | CReset keep init ntx c hh h p obs recov => check_reset keep init ntx c hh h p obs recov
   | CResetOrd keep init ntx c hh h p obs who flags recov => check_reset_ord keep init ntx c hh h p obs who flags recov
+  | CCache ntx snaps => check_cache ntx snaps
   | CJump jor p top mtb obs recov => check_jump jor p top mtb obs recov
   | CLongGC ps gcp mtb fl obs kinds recov => check_long ps gcp mtb fl obs kinds recov
   | CStorageSync _ obs recov => check_storage_sync obs recov
